@@ -1,3 +1,5 @@
+//go:build !c36small
+
 package main
 
 // In-memory webhdfs.Client (a WebHDFS name node + data nodes): TRUSTED BASE of
